@@ -30,9 +30,13 @@ then the address MSB first, then the value MSB first).  It checks
     unmapped / read-only addresses, on extra clocks, and never twice.
 
 Not judged: SDO during the command bits and after the word; idle/stalled; read strobes (counted only);
-latency (bounded by WINDOW); CS released in the same cycle as an SCK edge is not generated.
+latency (bounded by WINDOW); CS released in the same cycle as the LAST falling SCK edge is not generated (the
+statement does not decide whether that transaction is complete); released together with any other edge it is an abort.
+CS asserted since reset: what is clocked until the first CS release is not a transaction (no CS edge; the block
+documents its STALL state for this) - no write may happen; SDO is not judged there.
+Extra clocks after the word include more than a whole, well-formed write frame under the same CS: no second write.
 
-Finding on the unchanged tree (findings/C51.md): SPICommandInterface looks at CS only in IDLE, STALL,
+Finding on the original tree (findings/C51.md, fixed in /repo 92ac038; violations are no longer renamed): SPICommandInterface looks at CS only in IDLE, STALL,
 RECEIVE_COMMAND and SHIFT_DATA.  A CS release that lies completely inside the three cycles after the
 falling SCK edge of the last command bit (last RECEIVE_COMMAND cycle, PROCESSING, LATCH_OUTPUT) is not
 noticed: the abandoned command stays armed and the bits of the NEXT transaction are taken as its value
@@ -52,7 +56,8 @@ RULE = ("case = (address_size 3..15, register_size 8..32, default value, autoneg
 REQUIRED_BINS = ["read_mapped", "read_unmapped_default", "read_back_written_value", "write_rw", "write_sfr", "write_unmapped",
                  "write_read_only", "write_narrow_register", "abort_in_command", "abort_in_data_write", "abort_last_bit_write",
                  "abort_at_command_data_boundary", "abort_in_sck_high", "extra_clocks_after_word", "address_one_bit_from_mapped",
-                 "autoneg_register_read", "transaction_after_abort", "cs_idle_1_cycle", "cs_idle_only_inside_command_turnaround", "write_same_value", "address_size_ge_12", "register_size_32",
+                 "autoneg_register_read", "transaction_after_abort", "extra_clocks_whole_second_frame", "cs_asserted_at_reset",
+                 "abort_cs_release_coincident_with_sck_edge", "cs_idle_1_cycle", "cs_idle_only_inside_command_turnaround", "write_same_value", "address_size_ge_12", "register_size_32",
                  "register_size_not_multiple_of_8", "read_source_changed"]
 REQUIRED_EVENTS = ["transactions", "complete_reads", "complete_writes", "aborts", "sdo_bits_checked", "register_cycles_checked",
                    "strobe_cycles_checked", "write_strobes_matched", "register_updates_matched", "sfr_write_values_checked"]
@@ -62,7 +67,6 @@ ASSUMPTIONS = ["SCK idle low, SDI stable across SCK high and both edges; SCK per
                "a transaction is aborted iff CS is released before the last value bit's falling SCK edge"]
 
 WINDOW = 10
-KNOWN = "cs_release_unnoticed_between_command_and_value_bits"
 
 
 def run_case(rng, tier, res):
@@ -183,13 +187,28 @@ def run_case(rng, tier, res):
                 k = rng.randint(0, 2)
             else:
                 k = rng.randint(cmdlen, total - 1)
-            abort = (max(0, min(total - 1, k)), rng.choice(["low", "low", "high"]), rng.randint(1, 4))
-        extra = rng.randint(1, rsz + 4) if (abort is None and rng.random() < 0.25) else 0
+            k = max(0, min(total - 1, k))
+            phase = rng.choice(["low", "low", "high", "rise", "fall"])
+            if k == cmdlen and rng.random() < 0.5:
+                phase = "low"
+            if phase == "fall" and k == total - 1:
+                phase = "high"          # CS released together with the LAST falling edge is not decided by the statement
+            abort = (k, phase, rng.randint(1, 4))
+        extra, extra_frame = 0, None
+        if abort is None and rng.random() < 0.3:
+            if rng.random() < 0.5:
+                extra = rng.randint(1, rsz + 4)
+            else:
+                # more than a whole further frame under the same CS; often a perfectly formed write to a writable register
+                extra = rng.randint(total, 2 * total + 6)
+                targets = [x for x in mapped if regs[x]["kind"] in ("rw", "rw_narrow", "sfr", "sfr_noread")]
+                if targets and rng.random() < 0.7:
+                    extra_frame = (1 << (asz + rsz)) | (rng.choice(targets) << rsz) | rng.getrandbits(rsz)
         gap = rng.choice([1, 2, 3, 3, 4, 6, rng.randint(1, 12), rng.randint(4, 12)])
         prev = script[-1]["abort"] if script else None
         if prev is not None and prev[0] == cmdlen and prev[1] == "low" and prev[2] <= 3 and rng.random() < 0.6:
             gap = rng.randint(1, 4 - prev[2])      # CS idle time that ends within 4 cycles after the last command bit
-        script.append({"write": write, "addr": a, "value": v, "abort": abort, "extra": extra,
+        script.append({"write": write, "addr": a, "value": v, "abort": abort, "extra": extra, "extra_frame": extra_frame,
                        "gap": gap, "cs2clk": rng.randint(1, 5), "clk2cs": rng.randint(2, 6),
                        "poke": gap >= 4 and rng.random() < 0.6})
     res.desc = {"address_size": asz, "register_size": rsz, "default": "%#x" % default, "autoneg": autoneg, "half": hbase,
@@ -219,6 +238,13 @@ def run_case(rng, tier, res):
           "pending_strobe": {}, "pending_value": {}, "context": ("none", None), "done": False, "src_change": {}, "src_prev": {},
           "aborted_prev": False, "regime": False, "regime_until": -1, "cs_fall": -100, "n_at_fall": -1, "written": set(), "had_write": False, "had_readback": False, "had_abort": False, "cmd_cycle": -100}
 
+    reset_cs = rng.random() < 0.25
+    if reset_cs:
+        # CS is already asserted when the block leaves reset: there is no CS edge, so whatever is clocked until CS is
+        # released is not a transaction (the block documents a STALL state for this); nothing may be written.
+        st.update(sel=True, done=True, n=total + 1, context=("reset_hold", None))
+        res.bin("cs_asserted_at_reset")
+
     def read_value(a):
         m = regs.get(a)
         if m is None:
@@ -234,8 +260,7 @@ def run_case(rng, tier, res):
 
     def viol(mech, detail):
         if st["regime"] or b.cycle <= st["regime_until"]:
-            detail = "[%s] %s" % (mech, detail)
-            mech = KNOWN
+            detail = "[after a CS release inside the command turnaround, findings/C51.md] " + detail
         res.violation(mech, detail)
 
     src_list = [(a, m) for a, m in regs.items() if m.get("src") is not None]
@@ -295,6 +320,8 @@ def run_case(rng, tier, res):
                     res.bin("abort_at_command_data_boundary")
                 if st["prev_sck"]:
                     res.bin("abort_in_sck_high")
+                if sck != st["prev_sck"]:
+                    res.bin("abort_cs_release_coincident_with_sck_edge")
             else:
                 st["aborted_prev"] = False
         st["sel"] = bool(cs)
@@ -366,6 +393,8 @@ def run_case(rng, tier, res):
                                 st["had_readback"] = True
             else:
                 res.bin("extra_clocks_after_word")
+                if n + 1 == 2 * total:
+                    res.bin("extra_clocks_whole_second_frame")
             st["n"] = n + 1
         st["prev_sck"], st["prev_sdo"] = sck, sdo
         # ---- fast path: no strobe high, nothing outstanding, every register equal to the model
@@ -390,7 +419,9 @@ def run_case(rng, tier, res):
             if b.get(sig):
                 if p is None:
                     kind, arg = st["context"]
-                    if kind == "read":
+                    if kind == "reset_hold":
+                        mech = "write_while_cs_asserted_since_reset"
+                    elif kind == "read":
                         mech = "write_strobe_on_read"
                     elif kind == "abort":
                         mech = "write_strobe_on_aborted_transaction"
@@ -436,7 +467,9 @@ def run_case(rng, tier, res):
                 del st["pending_value"][a]
             elif v != m["value"]:
                 kind, arg = st["context"]
-                if kind == "read":
+                if kind == "reset_hold":
+                    mech = "write_while_cs_asserted_since_reset"
+                elif kind == "read":
                     mech = "register_changed_on_read"
                 elif kind == "abort":
                     mech = "register_changed_on_aborted_transaction"
@@ -469,6 +502,16 @@ def run_case(rng, tier, res):
         b.set(spi.sdi, v)
         yield from wait(hl - k)
         b.set(spi.sck, 1)
+        if abort and abort[0] == "rise":
+            b.set(spi.cs, 0)            # CS released in the very cycle of the rising edge
+            yield from wait(rng.randint(1, 3))
+            b.set(spi.sck, 0)
+            return True
+        if abort and abort[0] == "fall":
+            yield from wait(hh)
+            b.set(spi.sck, 0)           # CS released in the very cycle of this (not the last) falling edge
+            b.set(spi.cs, 0)
+            return True
         if abort and abort[0] == "high":
             off = max(1, min(hh - 1, abort[1]))
             yield from wait(off)
@@ -487,9 +530,16 @@ def run_case(rng, tier, res):
                 res.bin("read_source_changed")
 
     def driver():
-        b.set(spi.sck, 0); b.set(spi.cs, 0); b.set(spi.sdi, 0)
+        b.set(spi.sck, 0); b.set(spi.cs, 1 if reset_cs else 0); b.set(spi.sdi, 0)
         poke_sources()
         yield from wait(rng.randint(4, 8))
+        if reset_cs:
+            targets = [x for x in mapped if regs[x]["kind"] in ("rw", "rw_narrow", "sfr", "sfr_noread")]
+            frame = (1 << (asz + rsz)) | (rng.choice(targets) << rsz) | rng.getrandbits(rsz) if targets else rng.getrandbits(total)
+            for j in range(rng.choice([total, total, total + rng.randint(1, 5), rng.randint(1, total)])):
+                yield from clock_bit((frame >> (total - 1 - j)) & 1 if j < total else rng.randint(0, 1))
+            yield from wait(rng.randint(2, 6))
+            b.set(spi.cs, 0)
         first = True
         for t in script:
             if first:
@@ -519,8 +569,11 @@ def run_case(rng, tier, res):
                     poke_sources()          # long after the read value was taken: must not affect this transaction
             if aborted:
                 continue
-            for _ in range(t["extra"]):
-                yield from clock_bit(rng.randint(0, 1))
+            for j in range(t["extra"]):
+                if t["extra_frame"] is not None and j < total:
+                    yield from clock_bit((t["extra_frame"] >> (total - 1 - j)) & 1)
+                else:
+                    yield from clock_bit(rng.randint(0, 1))
             yield from wait(t["clk2cs"])
             b.set(spi.cs, 0)
         yield from wait(WINDOW + 6)
